@@ -148,7 +148,10 @@ class _BlackboxSimulatorBackend(SimulatorBackend):
         # Makes sure that time is monotonically increasing which may not be the
         # case due to numerical errors or due to the use of a surrogate
         et_attr = self.elapsed_time_attr
-        results[0][et_attr] = max(results[0][et_attr], 0.01)
+        if results:
+            # Note: ``results`` is empty if the trial is resumed from its final
+            # resource level (nothing left to report)
+            results[0][et_attr] = max(results[0][et_attr], 0.01)
         for i in range(1, len(results)):
             results[i][et_attr] = max(
                 results[i][et_attr],
